@@ -203,10 +203,21 @@ def _run_block(ck, ob, st, stmts, top=False):
             _run_if(ck, ob, st, s)
             continue
         if k == "WhileStmt":
-            _run_while(ck, ob, st, s)
+            cond, body = C.inner(s)[0], C.inner(s)[1]
+            _run_while(ck, ob, st, s, cond, C.inner(body) if C.kind(body) == "CompoundStmt" else [body])
             continue
         if k == "ForStmt":
-            _run_for(ck, ob, st, s)
+            parts = C.inner(s)
+            if len(parts) != 5:
+                raise AnalysisError("websocket_mask: unexpected for statement shape (line %s)" % C.line(s))
+            init, _cv, cond, inc, body = parts
+            dl = st.role("data_len")
+            if not C.kind(init) and cond and _guard_min(cond, dl) is not None:
+                # for (; data_len >= W; data_len -= W) { ... }  is a word loop whose step runs after the body
+                stmts = (C.inner(body) if C.kind(body) == "CompoundStmt" else [body]) + ([inc] if C.kind(inc) else [])
+                _run_while(ck, ob, st, s, cond, stmts)
+            else:
+                _run_for(ck, ob, st, s)
             continue
         if k == "ReturnStmt":
             v = C.inner(s)[0] if C.inner(s) else None
@@ -373,8 +384,7 @@ def _guard_min(cond, var):
     return sat[0]
 
 
-def _run_while(ck, ob, st, s):
-    cond, body = C.inner(s)[0], C.inner(s)[1]
+def _run_while(ck, ob, st, s, cond, body_stmts):
     dl, dp, op_ = st.role("data_len"), st.role("data"), st.role("out")
     if op_ is None or not st.allocated:
         raise AnalysisError("websocket_mask: processing loop before the output buffer exists (line %s)" % C.line(s))
@@ -386,12 +396,12 @@ def _run_while(ck, ob, st, s):
     offsets = {dp: 0, op_: 0}
     dld = 0
     stores = {"little": {}, "big": {}}
-    for b in (C.inner(body) if C.kind(body) == "CompoundStmt" else [body]):
+    for b in body_stmts:
         k = C.kind(b)
         ap = _assign_parts(b)
         if ap is not None:
             lhs, rhs = ap
-            sp = C.subscript_parts(lhs) if C.kind(C.strip(lhs)) == "ArraySubscriptExpr" else None
+            sp = C.subscript_parts(lhs) if C.is_mem_access(lhs) else None
             if sp is None:
                 _run_assign(ck, ob, st, b, lhs, rhs)
                 continue
@@ -464,7 +474,7 @@ def _run_for(ck, ob, st, s):
     if len(sts) != 1 or _assign_parts(sts[0]) is None:
         raise AnalysisError("websocket_mask: tail loop body is not a single store (line %s)" % C.line(s))
     lhs, rhs = _assign_parts(sts[0])
-    sp = C.subscript_parts(lhs) if C.kind(C.strip(lhs)) == "ArraySubscriptExpr" else None
+    sp = C.subscript_parts(lhs) if C.is_mem_access(lhs) else None
     if sp is None:
         raise AnalysisError("websocket_mask: tail loop does not store through the output pointer (line %s)" % C.line(s))
     var, w, idx = sp
@@ -538,16 +548,27 @@ def py_rules(ck, table):
             e = src_of(e.id)
         return isinstance(e, ast.Call) and ((q.call_name(e) in ("array.array", "array") and len(e.args) == 2 and q.is_const(e.args[0], "B") and q.dotted(e.args[1]) == param) or (q.call_name(e) in ("bytearray", "bytes", "memoryview") and len(e.args) == 1 and q.dotted(e.args[0]) == param))
 
-    xors = [n for n in q.walk_body(ref.node) if isinstance(n, ast.Assign) and isinstance(n.value, ast.BinOp) and isinstance(n.value.op, ast.BitXor)]
+    xors = [n for n in q.walk_body(ref.node) if (isinstance(n, ast.Assign) and isinstance(n.value, ast.BinOp) and isinstance(n.value.op, ast.BitXor)) or (isinstance(n, ast.AugAssign) and isinstance(n.op, ast.BitXor))]
+    if len(xors) != 1:
+        raise AnalysisError("_websocket_mask_python: expected one XOR store statement in a loop, found %d (form not modelled)" % len(xors))
     ck.ob(R, ref, ref.node, len(xors) == 1, "the reference has one XOR store", construct="xor stores: %d" % len(xors))
     for x in xors:
-        tgt = x.targets[0]
+        tgt = x.targets[0] if isinstance(x, ast.Assign) else x.target
         loop = [f for f in q.walk_body(ref.node) if isinstance(f, ast.For) and any(y is x for y in ast.walk(f))]
         iv = loop[0].target.id if loop and isinstance(loop[0].target, ast.Name) else None
         it = loop[0].iter if loop else None
         ok_range = it is not None and q.is_call(it, "range") and len(it.args) == 1 and q.is_call(it.args[0], "len") and q.dotted(it.args[0].args[0]) == dp
         ck.ob(R, ref, x, bool(iv) and ok_range, "the reference visits i = 0 .. len(data)-1")
-        l, r = x.value.left, x.value.right
+        if isinstance(x, ast.Assign):
+            l, r = x.value.left, x.value.right
+        else:  # a[i] ^= e  is  a[i] = a[i] ^ e
+            import copy as _copy
+
+            l = _copy.deepcopy(x.target)
+            for y in ast.walk(l):
+                if hasattr(y, "ctx"):
+                    y.ctx = ast.Load()
+            r = x.value
 
         def is_data_i(e):
             return isinstance(e, ast.Subscript) and is_arr_of(e.value, dp) and isinstance(e.slice, ast.Name) and e.slice.id == iv
@@ -558,6 +579,11 @@ def py_rules(ck, table):
             return None
 
         md = mask_mod(r) if is_data_i(l) else (mask_mod(l) if is_data_i(r) else None)
+        if md is None:
+            # positively wrong only when the mask is indexed by something recognisable that is not i % <const>
+            plain = [e_ for e_ in (l, r) if isinstance(e_, ast.Subscript) and is_arr_of(e_.value, mp)]
+            if not plain or not (is_data_i(l) or is_data_i(r)):
+                raise AnalysisError("_websocket_mask_python: XOR operands %s / %s are not data[i] and mask[i %% k]" % (q.unparse(l), q.unparse(r)))
         ck.ob(R, ref, x, md == 4, "the reference computes data[i] ^ mask[i %% 4] (modulus %r)" % (md,))
         ok_t = isinstance(tgt, ast.Subscript) and isinstance(tgt.slice, ast.Name) and tgt.slice.id == iv and is_arr_of(tgt.value, dp)
         ck.ob(R, ref, x, ok_t, "the result byte i is stored at index i of the (copy of the) data array")
